@@ -5,6 +5,7 @@ import CanvasProofs.Lemmas.C09Split
 import CanvasProofs.Lemmas.C09Cuts
 import CanvasProofs.Lemmas.C09GL
 import CanvasProofs.Lemmas.C09Parse
+import CanvasProofs.Lemmas.C09SplitAt
 /-!
 # C09 — Length, SplitAt and Reverse are consistent views of one curve
 
@@ -111,47 +112,46 @@ theorem split_subpaths (subs : List (SubPath α)) (hd : ∀ s ∈ subs, s.drawOn
 
 /-! ## SplitAt -/
 
-/-- `SplitAt` walks over `ps.d` for every subpath `ps` of `p.Split()` but reads the coordinates from
-`p.d` at the same index: what it assumes is that the two arrays agree on the index range of `ps`. -/
-def splitAt_index_statement : Prop :=
-  ∀ (C : Codes Int) (subs : List (SubPath Int)) (k : Nat) (ps : List (Cmd Int)),
-    (split (flatF subs))[k]? = some ps →
-      ∀ i, i < (encodeF C ps).length → (encodeF C (flatF subs))[i]? = (encodeF C ps)[i]?
+/-! The structural model `Canvas.C09.splitAt` (CanvasModel/C09/SplitAt.lean) is the whole walk of
+`Path.SplitAt` - sorted copy of the positions, subpaths of `Split()`, selection of the cuts per
+segment, cutting loops, builder calls, push - with the arc-length inversion abstract (`SegOracle`); it
+is compared with the real code on single- and multi-subpath paths on every check. -/
 
-/-- it holds for the first subpath (so for every path with one subpath) -/
-theorem splitAt_index_partial (C : Codes α) (subs : List (SubPath α)) (ps : List (Cmd α))
-    (hd : ∀ s ∈ subs, s.drawOnly = true) (hl : lastNontrivial subs)
-    (h0 : (split (flatF subs))[0]? = some ps) :
-    ∀ i, i < (encodeF C ps).length → (encodeF C (flatF subs))[i]? = (encodeF C ps)[i]? := by
-  rw [split_flat subs hd hl] at h0
-  cases subs with
-  | nil => simp at h0
-  | cons s more =>
-    simp only [List.map_cons, List.getElem?_cons_zero, Option.some.injEq] at h0
-    subst h0
-    intro i hi
-    have : flatF (s :: more) = SubPath.flat s ++ flatF more := by simp [flatF]
-    rw [this, encodeF_append, List.getElem?_append_left hi]
+/-- which positions cut a segment: exactly the leading ones in `(T, T+dT]`; the others are kept, in
+order, for the following segments -/
+theorem splitAt_selects (O : SplitOps α) (T dT : α) (rem : List α) :
+    (selectCuts O T dT rem).1 ++ (selectCuts O T dT rem).2 = rem ∧
+      ∀ t ∈ (selectCuts O T dT rem).1, O.lt T t = true ∧ O.le t (O.add T dT) = true :=
+  selectCuts_spec O T dT rem
 
-def intCodes : Codes Int where
-  move := 1
-  line := 2
-  quad := 4
-  cube := 8
-  arc := 16
-  close := 32
-  flag l s := (if l then 1 else 0) + (if s then 2 else 0)
+/-- Bézier segments: every selected position closes exactly one piece, `T` advances by the segment
+length, the selected positions are consumed (whatever the builder and the inversion answer) -/
+theorem splitAt_quad_bookkeeping (G : Geo α) (O : SplitOps α) (start cp e : Pt α) (o : SegOracle α)
+    (s s' : SState α) (hrem : s.rem ≠ []) (h : quadCase G O start cp e o s = some s') :
+    s'.qs.length = s.qs.length + (selectCuts O s.T o.dT s.rem).1.length ∧
+    s'.T = O.add s.T o.dT ∧ s'.rem = (selectCuts O s.T o.dT s.rem).2 :=
+  quadCase_bookkeeping G O start cp e o s s' hrem h
 
-/-- and fails for every later subpath: for `M0 0 L10 0 M0 5 L10 5` the second subpath's MoveTo is
-read as (0,0) instead of (0,5) (known finding C09-splitat-multi-subpath) -/
-theorem splitAt_index_witness : ¬ splitAt_index_statement := by
-  intro h
-  have := h intCodes [⟨⟨0, 0⟩, [.line ⟨10, 0⟩], false⟩, ⟨⟨0, 5⟩, [.line ⟨10, 5⟩], false⟩] 1
-    [.move ⟨0, 5⟩, .line ⟨10, 5⟩] (by decide) 2 (by decide)
-  revert this
-  decide
+theorem splitAt_cube_bookkeeping (G : Geo α) (O : SplitOps α) (start c1 c2 e : Pt α) (o : SegOracle α)
+    (s s' : SState α) (hrem : s.rem ≠ []) (h : cubeCase G O start c1 c2 e o s = some s') :
+    s'.qs.length = s.qs.length + (selectCuts O s.T o.dT s.rem).1.length ∧
+    s'.T = O.add s.T o.dT ∧ s'.rem = (selectCuts O s.T o.dT s.rem).2 :=
+  cubeCase_bookkeeping G O start c1 c2 e o s s' hrem h
 
-/-- Quadratic case of `SplitAt` for ANY cut parameters `ts` (whatever the inverse arc length
+/-- per-subpath behaviour of the repaired walk: the records handed to the walk are those of the
+subpath itself (`split_subpaths`), and each MoveTo record (re)starts the current piece at its point -/
+theorem splitAt_per_subpath (G : Geo α) (O : SplitOps α) (p start : Pt α) (cs : List (Cmd α))
+    (os : List (SegOracle α)) (s : SState α) :
+    walkSub G O (.move p :: cs) start os s = walkSub G O cs p os { s with q := moveTo p s.q } :=
+  walkSub_move G O p start cs os s
+
+/-- without positions `SplitAt` returns the path -/
+theorem splitAt_no_positions (G : Geo α) (O : SplitOps α) (cs : List (Cmd α)) (os : List (SegOracle α)) :
+    splitAt G O cs [] os = some [cs] :=
+  splitAt_nil G O cs os
+
+/-- Quadratic case of `SplitAt` (the control polygons `quadCase` hands to the builder are `cutsGen`)
+for ANY cut parameters `ts` (whatever the inverse arc length
 returns, as long as no division by `1 - t0 = 0` occurs): the emitted pieces are the curve on the
 consecutive parameter intervals `[0,t₁], [t₁,t₂], …` and the remainder is the curve on `[tₙ,1]` —
 the pieces concatenate geometrically to the original, each starting where the previous one ends. -/
